@@ -426,3 +426,11 @@ def rule_restore(ctx, R):
 
 
 RULES.append(("C09.RESTORE", "every non-empty stack of the pre-executed state is written into the emitted program, at its own index, and read back with Num::from_string (shared with C03.UNITS)", rule_restore))
+
+
+# rules of other properties re-run under this property's name; resolved by rules/main.py once every module can be
+# imported (the owners import this module themselves)
+DEFERRED_BUNDLES = [
+    {'prop': 'C09', 'tag': 'INT', 'module': 'p_c05', 'only': ('CTOR', 'CONSTS', 'NORMALISE', 'SIGN', 'OPS'), 'skip': (), 'why': 'what is written and read back is a BigNum in normal form'},
+    {'prop': 'C09', 'tag': 'RAT', 'module': 'p_c06', 'only': ('CANON', 'ARITH'), 'skip': (), 'why': 'a rational that is written is canonical'},
+]
